@@ -63,6 +63,20 @@ func init() {
 			h := sha256.Sum256([]byte(strings.Join(l.ws, "\n") + "\n"))
 			parts = append(parts, fmt.Sprintf("%s=%d,%x", l.name, len(l.ws), h))
 		}
+		// ... and the same again after the exported slices have been handed to NewWordList (as opgen does with them) and a
+		// password has been generated from the result: the shipped data is still the shipped data, entry by entry
+		for _, l := range []struct {
+			name string
+			ws   *[]string
+		}{{"agilewords", &spg.AgileWords}, {"agilesyllables", &spg.AgileSyllables}} {
+			if wl, err := spg.NewWordList(*l.ws); err == nil {
+				_, _ = spg.NewWLRecipe(3, wl).Generate()
+			}
+			drain(capOut)
+			drain(capErr)
+			h := sha256.Sum256([]byte(strings.Join(*l.ws, "\n") + "\n"))
+			parts = append(parts, fmt.Sprintf("%s_after_use=%d,%x", l.name, len(*l.ws), h))
+		}
 		return "ok " + strings.Join(parts, " ")
 	}
 }
